@@ -66,6 +66,9 @@ Section GenLabels.
   (* the id the finished Interner returns for x (x already seen) *)
   Definition intern_id (labels : list L) (x : L) : nat :=
     match find_key x (keys_after [] labels) with Some i => i | None => length (keys_after [] labels) end.
+  (* renumbering of the keys of a Python-level grouping (specification side of the interning contract) *)
+  Definition relabel (f : L -> nat) (g : list (L * list nat)) : list (nat * list nat) :=
+    map (fun lq => (f (fst lq), snd lq)) g.
 End GenLabels.
 Arguments add_to_group_g {L}. Arguments groups_from_g {L}. Arguments qubits_by_subsystem_g {L}.
 Arguments find_key {L}. Arguments intern_list {L}. Arguments keys_after {L}. Arguments intern_id {L}.
